@@ -61,6 +61,12 @@ type taskSpec struct {
 	after   []cmdRes
 	allow   bool
 	newTask bool // built with task.NewTask (ExitCode -1) or as a literal like internal/config does (ExitCode 0)
+	// decor: every command that exits with a status also contains a failing statement that is not its last one and
+	// leaves shell state behind (errexit, nounset, another directory, a variable): the interpreter is reset before every
+	// command, so none of this changes what the task does - the oracle line is the same as without. (Shell FUNCTIONS are
+	// not part of this: the commands of one task share an interpreter whose reset keeps them, and nothing in C06 says
+	// whether a later command may call a function an earlier one defined.)
+	decor bool
 }
 
 func (s *taskSpec) nVars() int {
@@ -102,9 +108,16 @@ func (s *taskSpec) line() string {
 		cond, resList(s.before, ","), s.nCmds, vars, resList(s.res, ","), resList(s.after, ","), allow, init)
 }
 
-func shellFor(trace, tok string, r cmdRes) string {
+const decorPre, decorPost = "false; cat /nonexistent/verif 2>/dev/null; ", "; set -eu; cd /; LEFT_BEHIND=1"
+
+func shellFor(trace, tok string, r cmdRes) string { return shellForD(trace, tok, r, false) }
+
+func shellForD(trace, tok string, r cmdRes, decor bool) string {
 	switch r.kind {
 	case 'e':
+		if decor {
+			return fmt.Sprintf("%secho %s >> %s%s; exit %d", decorPre, tok, trace, decorPost, r.n)
+		}
 		return fmt.Sprintf("echo %s >> %s; exit %d", tok, trace, r.n)
 	case 'f':
 		return fmt.Sprintf("echo %s >> %s; sleep 5", tok, trace)
@@ -158,15 +171,15 @@ func (s *taskSpec) buildTask(name, trace string) *task.Task {
 	t.AllowFailure = s.allow
 	hasFault := false
 	if s.cond != nil {
-		t.Condition = shellFor(trace, "c", *s.cond)
+		t.Condition = shellForD(trace, "c", *s.cond, s.decor)
 		hasFault = hasFault || s.cond.kind == 'f'
 	}
 	for i, r := range s.before {
-		t.Before = append(t.Before, shellFor(trace, fmt.Sprintf("b%d", i), r))
+		t.Before = append(t.Before, shellForD(trace, fmt.Sprintf("b%d", i), r, s.decor))
 		hasFault = hasFault || r.kind == 'f'
 	}
 	for i, r := range s.after {
-		t.After = append(t.After, shellFor(trace, fmt.Sprintf("a%d", i), r))
+		t.After = append(t.After, shellForD(trace, fmt.Sprintf("a%d", i), r, s.decor))
 		hasFault = hasFault || r.kind == 'f'
 	}
 	if s.vars >= 0 {
@@ -190,7 +203,11 @@ func (s *taskSpec) buildTask(name, trace string) *task.Task {
 			hasFault = hasFault || r.kind == 'f'
 			switch r.kind {
 			case 'e':
-				fmt.Fprintf(&sb, "%s) echo m%d.%d >> %s; exit %d;; ", label(v), v, j, trace, r.n)
+				if s.decor {
+					fmt.Fprintf(&sb, "%s) %secho m%d.%d >> %s%s; exit %d;; ", label(v), decorPre, v, j, trace, decorPost, r.n)
+				} else {
+					fmt.Fprintf(&sb, "%s) echo m%d.%d >> %s; exit %d;; ", label(v), v, j, trace, r.n)
+				}
 			case 'f':
 				fmt.Fprintf(&sb, "%s) echo m%d.%d >> %s; sleep 5;; ", label(v), v, j, trace)
 			}
@@ -323,6 +340,9 @@ func (s *taskSpec) reference() runObs {
 func runnerCase(col *Collector, focus string, s *taskSpec, tag string) {
 	obs, err := runTaskSpec(s)
 	cs := Case{Line: s.line(), Tags: []string{tag}}
+	if s.decor {
+		cs.Replay = s.line() + fmt.Sprintf(" [every command that exits with a status is written `%secho <token> >> trace%s; exit <n>`]", decorPre, decorPost)
+	}
 	if err != nil {
 		cs.Fail, cs.Sig = "running the task crashed: "+err.Error(), "runner-panic"
 		cs.Impl = "panic"
@@ -517,6 +537,12 @@ func runRunnerProp(col *Collector, focus, tier string, seed int64) {
 		"every exit status 0..255 at every position of a 3-command task; random larger tasks (<=8 commands, <=5 variations) with timeouts, undefined template variables, unparsable commands. " +
 		"non-trivial = at least 2 commands ran; distinct = distinct task specifications"
 	specs, tags := genRunnerSpecs(tier, rng)
+	for i := range specs {
+		if i%3 == 1 {
+			specs[i].decor = true
+			tags[i] += "+shell-state"
+		}
+	}
 	parallel(len(specs), 16, func(i int) { runnerCase(col, focus, specs[i], tags[i]) })
 	if focus == "C07" {
 		col.res.Rule += "; plus the real taskctl binary with every ordered selection of <=3 of 5 targets (tasks, an allow_failure task, pipelines), seeded exit statuses, both `taskctl T...` and `taskctl run T...` forms, words after `--`"
@@ -921,14 +947,15 @@ func rerunCases(col *Collector) {
 
 // every before / after / condition command is a shell of its own: shell options, the working directory, variables and
 // functions that one of them sets are gone in the next one - of the same task and of the tasks run later by the same
-// runner. One runner, a first task whose service commands leave as much shell state behind as they can, then tasks
+// runner (options, directory, variables; shell functions are left out, see taskSpec.decor). One runner, a first task
+// whose service commands leave as much shell state behind as they can, then tasks
 // whose service commands contain a statement that fails but is not the last one.
 func hookShellStateCases(col *Collector) {
 	leaks := []struct{ name, stmt string }{
 		{"set -e", "set -e"},
 		{"set -eu", "set -eu"},
 		{"set -o pipefail -e", "set -o pipefail; set -e"},
-		{"cd / and a function called echo", "cd /; echo() { return 9; }"},
+		{"cd / and a variable", "cd /; UNSET_BY_ANYONE=leaked"},
 		{"readonly variable and set -e", "readonly UNSET_BY_ANYONE=leaked; set -e"},
 	}
 	for _, lk := range leaks {
